@@ -127,6 +127,28 @@ class Lin:
                                                     or t[1].endswith("AsRef<T>>::as_ref") or t[1].endswith("::as_bytes")):
             # smart pointers / containers deref to the slice they own: same length
             return self.len_of(t[2][0])
+        # a vector collected from a length-preserving iterator chain over x (iter / map / copied / cloned / enumerate) has
+        # len(x) elements - also when collected into Result<Vec<_>, _> / Option<Vec<_>> and unwrapped (all elements succeeded)
+        tc = t
+        if tc and tc[0] == "field" and tc[2] == 0 and isinstance(tc[1], tuple):
+            inner = self.expand(tc[1])
+            if isinstance(inner, tuple) and inner and inner[0] == "field" and inner[2] == 0:
+                inner = self.expand(inner[1])          # Try::branch payload of the Ok variant
+            tc = inner
+        if tc and tc[0] == "call" and tc[1].split("::")[-1] in ("collect", "from_iter") and tc[2]:
+            src = self.expand(tc[2][0])
+            okc = True
+            for _ in range(12):
+                if not (isinstance(src, tuple) and src and src[0] == "sym" and src[1][0] == "call" and src[1][2]):
+                    break
+                nm = src[1][1].split("::")[-1]
+                if nm in ("map", "copied", "cloned", "enumerate", "into_iter", "by_ref"):
+                    src = self.expand(src[1][2][0])
+                    continue
+                if nm in ("iter", "iter_mut"):
+                    return self.len_of(self.expand(src[1][2][0]))
+                okc = False
+                break
         if t and t[0] == "deref":
             return self.len_of(("sym", t[1]))
         if t and t[0] == "init" and t[1][0] == "D":
